@@ -282,6 +282,16 @@ func replayFrag(fsch *fragSched, version int) string {
 				in = line(their, 2, 3, "x")
 				rcv = our
 			}
+		case "badtag":
+			if version == 2 {
+				in = []byte("?OTR,zz,1,x,")
+			} else if s.K == 2 {
+				in = line(0x50, s.K, 3, piece("M", s.K))
+			} else {
+				rcv = 0x42
+				in = line(their, s.K, 3, piece("M", s.K))
+				rcv = our
+			}
 		case "otherformat":
 			// the first / the completing piece of M, in the other version's header format
 			if version == 3 {
